@@ -40,6 +40,12 @@ _COPIES = [
     (r"^C07\.rule\.conjugate_", "C10"),
     (r"^C19\.frame\.reset_parameters\.", "C10"),
     (r"^C02\.state\.", "C10"),
+    (r"^C02\.fold_pointer_group", "C19"),
+    (r"^C02\.group_foldable_modules\.wrapping", "C06"),
+    (r"^C10\.ParameterNode\.copy\.PolynomialDifferential", "C05"),
+    (r"^C10\.ParameterNode\.copy\.(PolynomialProduct|GaussianProduct)", "C04"),
+    (r"^C10\.ParameterNode\.copy\.ConjugateParameter", "C07"),
+    (r"^C02\.fold_pointer_group", "C10"),
     (r"^C01\.evaluate\.", "C14"),
     (r"^C01\.address_book\.entry\.", "C14"),
     (r"^C01\.lookup\.step\.", "C11"),
